@@ -20,7 +20,7 @@ from . import common
 
 ID = 'C12'
 LEVEL = 'exploration'
-QUOTA = {'quick': 600, 'thorough': 7000}
+QUOTA = {'quick': 1100, 'thorough': 7000}
 BUDGET = {'quick': 100, 'thorough': 900}
 RULE = ('scenario = reference-marker table (synthetic with drawn density / empty pairs / one-sided pairs, or produced by '
         'the real stage) x query gene subset x per-direction target and per-parent overrides, selected under two '
